@@ -53,7 +53,7 @@ def make_listener(run_box, moments, vs, case):
 def observe(run, solution, where, moments, vs, case):
     """test the claim now; `solution` is the object through which the optimum is reported at this moment"""
     moments[0] += 1
-    log = run.problem.log
+    log = [e for e in run.problem.log if e[0] != "other"]     # trials of the search (global and local phase); a painter's probes are not trials
     if not log:
         return
     point, value = oc.best_of(solution)
@@ -87,12 +87,25 @@ def observe(run, solution, where, moments, vs, case):
 
 
 def check_case(case):
+    if case.get("painter"):
+        # a shipped painting listener is attached IN FRONT of the recording one: what it does in OnMethodStop (it probes the
+        # objective around the optimum to draw it) must leave the reported optimum an evaluated trial with its own value
+        os.environ.setdefault("MPLBACKEND", "Agg")
+        from oracles import c13 as _c13
+        import iOpt.method.listener as lm
+        with _c13.headless(True) as d:
+            p = lm.StaticPaintListener("fig.png", d, mode="objective function", indx=case["n"] - 1)
+            return _check_case(case, [p])
+    return _check_case(case, [])
+
+
+def _check_case(case, front):
     vs = []
     moments = [0]
     box = [None]
     lst = make_listener(box, moments, vs, case)
     bare = bool(case.get("bare"))          # no listener attached: nothing calls GetResults behind the caller's back
-    run = oc.Run(case, listeners=[] if bare else [lst])
+    run = oc.Run(case, listeners=front + ([] if bare else [lst]), cap=(4 * max(case["lim"], 16) + 64) + (2000 if front else 0))
     box[0] = run
     err = None
     info = {"bare": bare}
@@ -147,6 +160,8 @@ def gen(r):
             case["bare"] = True
     if r.random() < 0.15:
         case["fresh_holder"] = True       # the objective returns a NEW value holder instead of filling in the one it was given
+    if case["n"] <= 2 and not case.get("bare") and case["lim"] <= 40 and r.random() < 0.06:
+        case["painter"] = True            # the shipped StaticPaintListener in front of the recording listener
     return case
 
 
